@@ -261,6 +261,7 @@ func cmdC03(r *RNG, n int, e *Emitter, args []string) {
 				return ""
 			}},
 		}
+		noteInput(desc) // one record per case (all entry points run on it)
 		for _, cl := range list {
 			res := runGuarded(cl.f)
 			calls++
